@@ -206,6 +206,7 @@ pub fn build<Data: GarnishData>(parse_root: usize, parse_tree: Vec<ParseNode>, d
                 index
             }
         };
+        let root_start = data.get_instruction_len();
         let mut stack = vec![root_index];
 
         while let Some(node_index) = stack.pop() {
@@ -252,7 +253,9 @@ pub fn build<Data: GarnishData>(parse_root: usize, parse_tree: Vec<ParseNode>, d
             }
         }
 
-        let last_instruction = data.get_instruction_iter().last();
+        // only an instruction of this block can stand in for its terminator, not whatever an earlier block or an
+        // earlier program in the same data object happened to end with
+        let last_instruction = if data.get_instruction_len() > root_start { data.get_instruction_iter().last() } else { None };
         let end_instructions = match nodes.get(root_index) {
             Some(Some(node)) => match &node.root_end_instruction {
                 Some(end_instruction) => end_instruction.clone(),
